@@ -33,7 +33,9 @@ RULE = (
     "case = (generated spec, input, request kind in {first, forest, api, prefix_first, prefix_forest}); inputs = all strings of "
     "length <= 3 over the spec's alphabet plus enumerated words of length <= 6; non-trivial = spec with a "
     "nullable symbol, a nested repetition, or a left/unit recursion; distinct by hash of (spec, input, kind); "
-    "bound = 300 + 30*W admitted parse states, W = reference count of partial derivations of the input (x4 for prefix mode)"
+    "bound = 300 + 30*W admitted parse states, W = reference count of partial derivations of the input (x4 for prefix mode); "
+    "directed families (x{n,} over a nullable operand, computed repetition under left recursion): fixed bound 40000; requests with a "
+    "derived bound > 80000 are skipped and counted"
 )
 ASSUMPTIONS = [
     "termination is checked as a bounded-step safety property; non-termination that needs inputs longer than 6 is not detected",
